@@ -354,6 +354,13 @@ def rule_r2(chk, prog, reg):
                             e.left.value, str) and e.left.value.startswith(
                                 ('mutator_', 'mutators_')):
                 pref = e.left.value
+            if pref is None and isinstance(e, ast.Call) and isinstance(
+                    e.func, ast.Attribute) and e.func.attr == 'format' and \
+                    isinstance(e.func.value, ast.Constant) and isinstance(
+                        e.func.value.value, str) and \
+                    e.func.value.value.startswith(('mutator_',
+                                                   'mutators_')):
+                pref = e.func.value.value
             if pref is None:
                 continue
             n += 1
@@ -389,7 +396,7 @@ def rule_r2(chk, prog, reg):
             chk.check('C14.R2', f'{m.name}.{fn}', e, ok, msg or
                       f'agrees with the reference on all {len(dom)} names',
                       loc=m.loc(e), nontrivial=True)
-    chk.floor('C14.R2', 'toggle attribute derivation sites', n, 8)
+    chk.floor('C14.R2', 'toggle attribute derivation sites', n, 2)
 
 
 def _enclosing_func_name(e):
@@ -425,6 +432,12 @@ def _holes(e):
                     'replace', 'lower', 'upper', 'strip', 'format') and all(
                         isinstance(a, ast.Constant) for a in x.args):
             rec(x.func.value)
+            return
+        if isinstance(x, ast.Call) and isinstance(
+                x.func, ast.Attribute) and x.func.attr == 'format' and \
+                isinstance(x.func.value, ast.Constant):
+            for a in x.args:
+                rec(a)
             return
         if not any(unparse(x) == unparse(h) for h in holes):
             holes.append(x)
@@ -642,12 +655,27 @@ def rule_r5(chk, prog, reg, table):
                     c.func, ast.Attribute) and c.func.attr in PROTOCOL:
                 nrecv += 1
                 recv = unparse(c.func.value)
-                ok = recv in ('self.mutator', 'm')
+                ok = recv == 'self.mutator' or _ranges_over_pass(c)
                 chk.check('C14.R5', f'{modname}.{_enclosing_func_name(c)}',
                           c, ok, f'protocol method called on "{recv}", which '
                           'is not recognised as an element of a pass list',
                           loc=sm.loc(c))
     chk.floor('C14.R5', 'protocol call sites in the strategies', nrecv, 8)
+
+
+def _ranges_over_pass(call):
+    """The receiver of a protocol call is the variable of a loop over the
+    pass list (self.__mutators)."""
+    recv = call.func.value
+    if not isinstance(recv, ast.Name):
+        return False
+    p = getattr(call, '_parent', None)
+    while p is not None and not isinstance(p, ast.FunctionDef):
+        if isinstance(p, ast.For) and isinstance(
+                p.target, ast.Name) and p.target.id == recv.id:
+            return unparse(p.iter) in ('self.__mutators', )
+        p = getattr(p, '_parent', None)
+    return False
 
 
 # --------------------------------------------------------------------- R6
@@ -863,6 +891,21 @@ def rule_r7(chk, prog, reg):
                                                         'nodes.bfs')]
     ok = len(walks) == 1 and walks[0].args and isinstance(
         walks[0].args[0], ast.Name) and walks[0].args[0].id == params_of(f)[0]
+    if not walks:
+        # delegated to a helper: the helper walks its parameter, which
+        # receives the input expressions
+        for c in calls_in(f):
+            if isinstance(c.func, ast.Name) and c.func.id in m.funcs:
+                h = m.funcs[c.func.id]
+                hw = [w for w in calls_in(h) if call_name(w) in (
+                    'nodes.dfs', 'nodes.bfs')]
+                for w in hw:
+                    if w.args and isinstance(w.args[0], ast.Name) and \
+                            w.args[0].id in params_of(h):
+                        i = params_of(h).index(w.args[0].id)
+                        if i < len(c.args) and unparse(
+                                c.args[i]) == params_of(f)[0]:
+                            ok = True
     chk.check('C14.R7', 'mutators.auto_detect_theories', 'walk over input',
               ok, 'the relevance walk does not range over the input '
               'expressions', loc=m.loc(f))
